@@ -104,8 +104,8 @@ def program(w, rho, queries, kinds):
             cexp.append(f"{c}={cids[c]}/{cids[c]}")
         src += f"      parts.push(format!(\"{an}={{}}[{{}}]\", <{an} as Archetype>::ARCHETYPE_ID, cs.join(\",\"))); }}\n"
         exp_parts.append(f"{an}={ids[an]}[{','.join(cexp)}]")
-    src += "    println!(\"world {}\", parts.join(\";\"));\n"
-    expected = ["world " + ";".join(exp_parts)]
+    src += f"    println!(\"world {{}} n={{}}\", parts.join(\";\"), <{name} as World>::NUM_ARCHETYPES);\n"
+    expected = ["world " + ";".join(exp_parts) + f" n={len(dw)}"]
     src += f"    let mut world = {name}::new();\n"
     hexp = []
     src += "    let mut hs: Vec<String> = Vec::new();\n"
